@@ -369,10 +369,10 @@ fn inputs(target: &str, large: bool) -> Vec<String> {
         "tree_ops" => {
             // every single call; then (thorough) every sequence of two calls
             let mut calls = Vec::new();
-            for op in ["append", "prepend", "insert_after", "insert_before", "any_append", "replace", "detach", "remove", "wrap", "unwrap", "attr_set", "attr_del", "ns_set", "ns_del"] {
+            for op in ["append", "prepend", "insert_after", "insert_before", "any_append", "replace", "detach", "remove", "wrap", "unwrap", "new_doc", "attr_set", "attr_del", "ns_set", "ns_del"] {
                 for x in 0..treeops::max_nodes() {
                     for y in 0..treeops::max_nodes() {
-                        if (op == "detach" || op == "remove" || op == "wrap" || op == "unwrap") && y != 0 { continue; }
+                        if (op == "detach" || op == "remove" || op == "wrap" || op == "unwrap" || op == "new_doc") && y != 0 { continue; }
                         if (op.starts_with("attr_") || op.starts_with("ns_")) && y > 2 { continue; }
                         calls.push(format!("{} {} {}", op, x, y));
                     }
@@ -656,6 +656,15 @@ mod treeops {
                     if let Some(p) = self.parent[x] { let i = self.pos(x); self.kids[p][i] = w; self.parent[w] = Some(p); }
                     self.parent[x] = Some(w);
                     Ok(true) }
+                // new_document_with_element: a new document node adopts the element, which leaves wherever it was
+                "new_doc" => { self.loose = true;
+                    if !matches!(self.kind[x], Kind::Elem(_)) { return Ok(false); }
+                    let old = self.parent[x];
+                    let d = self.kind.len();
+                    self.kind.push(Kind::Doc); self.parent.push(None); self.kids.push(vec![]); self.alive.push(true);
+                    self.detach_raw(x); self.kids[d].push(x); self.parent[x] = Some(d);
+                    if let Some(o) = old { if self.alive[o] { self.normalise(o, cons); } }
+                    Ok(true) }
                 // any_append: ordinary nodes as append; an attribute / namespace node goes through the map view:
                 // an entry with the same key is updated in place, otherwise the node moves behind the last entry
                 "any_append" => { let (p, c) = (x, y);
@@ -854,6 +863,7 @@ mod treeops {
             "replace" => xot.replace(nodes[x], nodes[y]).is_ok(),
             "unwrap" => xot.element_unwrap(nodes[x]).is_ok(),
             "wrap" => { let w = xot.add_name("w"); match xot.element_wrap(nodes[x], w) { Ok(n) => { *made = Some(n); true } Err(_) => false } }
+            "new_doc" => { match xot.new_document_with_element(nodes[x]) { Ok(n) => { *made = Some(n); true } Err(_) => false } }
             "attr_set" => { let n = xot.add_name(ATTR_NAMES[y % 3]); xot.attributes_mut(nodes[x]).insert(n, "n".to_string()); true }
             "attr_del" => { let n = xot.add_name(ATTR_NAMES[y % 3]); xot.attributes_mut(nodes[x]).remove(n); true }
             "ns_set" => { let p = xot.add_prefix(NS_PREFIXES[y % 3]); let u = xot.add_namespace("urn:new"); xot.namespaces_mut(nodes[x]).insert(p, u); true }
@@ -868,7 +878,7 @@ mod treeops {
         let mut done = String::new();
         for (op, x, y) in steps {
             let (x, y) = (*x, *y);
-            let unary = op == "detach" || op == "remove" || op == "wrap" || op == "unwrap";
+            let unary = op == "detach" || op == "remove" || op == "wrap" || op == "unwrap" || op == "new_doc";
             m.loose = false;
             let keyed = op.starts_with("attr_") || op.starts_with("ns_");
             if x >= nodes.len() || (!keyed && y >= nodes.len()) { return None; }
